@@ -125,7 +125,7 @@ ConfigsC03x ==
         st \in {<<TRUE, {}>>, <<FALSE, {T, U, P}>>}, bu \in {None, 1}, ha \in BOOLEAN,
         ab \in BOOLEAN }
 ConfigsC14x ==
-    { [Base EXCEPT !.maxAtt = 2, !.rc = TRUE, !.maxUnk = 1, !.D = d,
+    { [Base EXCEPT !.maxAtt = 3, !.rc = TRUE, !.maxUnk = 1, !.D = d,
                    !.lim = [NoLim EXCEPT ![T] = 1],
                    !.hasDefault = FALSE, !.strat = {T, U, P},
                    !.budget = bu, !.handler = TRUE, !.abort = ab, !.opname = op] :
